@@ -202,8 +202,6 @@ def linear(ctx, episodes=None):
     flagged = [e for e in eps if not e["explainable"]]
     ctx.log("concurrent: %d episodes (%d overlapped), %d events, TLC accepted=%s (%d states, %.1fs), permutation check flags %d" % (
         len(eps), tr["stats"].get("episodes_overlapped", 0), tr["stats"].get("trace_events", 0), v.ok, v.distinct, v.wall, len(flagged)))
-    if tr["violations"]:
-        return tr  # a panic ended the recording early; the trace is incomplete by construction
     if v.ok:
         if flagged:
             raise lib.Inconclusive("the permutation check rejects episode %s but TLC accepts the recording: the two "
@@ -238,7 +236,7 @@ def replay(ctx, path):
     rp = json.load(open(path))
     env = {"VERIF_REPLAY": os.path.abspath(path)}
     env.update(tmp_env())
-    if "episode" in (rp.get("replay") or {}):
+    if "episode" in (rp.get("replay") or {}) or "schedule" in (rp.get("replay") or {}):
         res = lib.run_go(ctx, "usermanager", "TestVerifC18Linear", env=env, extra_args=["-v"])
         print(open(os.path.join(res["_out_dir"], "go.out")).read())
         return 0
